@@ -1184,6 +1184,7 @@ def run_metamorphic(simA, ops, transform=None, prop='C10', what='declared-implic
                 simB.last_model_before = simB.model.clone()
                 nA = len(simA.findings)
                 nB = len(simB.findings)
+            fbA0, fbB0 = copy.deepcopy(simA.files), copy.deepcopy(simB.files)
             rA = simA.invoke(targets, j=op['j'], k=op['k'], sched=op['sched'])
             rB = simB.invoke(targets, j=op['j'], k=op['k'], sched=op['sched'])
             if rA is None or rB is None:
@@ -1204,8 +1205,15 @@ def run_metamorphic(simA, ops, transform=None, prop='C10', what='declared-implic
             stA = sorted(ev['edge'] for ev in rA['trace'] if ev['ev'] == 'start')
             stB = sorted(ev['edge'] for ev in rB['trace'] if ev['ev'] == 'start')
             if (rA['status'] == 0) != (rB['status'] == 0):
+                # a listed finding may be the reason (a dirty statement that ignores its discovered inputs never reaches their
+                # producer, whose missing source then goes unnoticed): does a counterfactual model predict exactly what the
+                # succeeding variant ran?
+                kn_ = None
+                for sm, r_, st_, fb_ in ((simA, rA, stA, fbA0), (simB, rB, stB, fbB0)):
+                    if r_['status'] == 0 and kn_ is None:
+                        kn_ = sm.attribute(targets, st_, fb_, [])
                 simA.add(prop, 'build result differs from the %s variant' % what, dict(A=dict(status=rA['status'], err=rA['err']),
-                                                                                              B=dict(status=rB['status'], err=rB['err']), targets=targets))
+                                                                                              B=dict(status=rB['status'], err=rB['err']), targets=targets), known=kn_)
                 break
             if (stA != stB and prop == 'C11' and rA['status'] != 0 and 'missing and no known rule' in rA['err'] and 'missing and no known rule' in rB['err']
                     and not stB and all((simA.edge_by_key(k_) or {}).get('is_dd_producer') or k_ in simrun_upstream_of_dd(simA.g) for k_ in stA)):
